@@ -265,8 +265,13 @@ def fill(index, rep, fn):
               "round 2 would not find / pin a food", loc=loc(PARAMS, fn))
     # the validator's list is the same sequence
     v = index.func(VAL, "Validator.verify_food_usage_priorities_round2")
-    lists = [n_ for n_ in ast.walk(v) if isinstance(n_, ast.List) and len(n_.elts) == 9 and all(str_const(e) for e in n_.elts)]
-    names = [[str_const(e) for e in l.elts] for l in lists]
+    lists = [n_ for n_ in ast.walk(v) if isinstance(n_, (ast.List, ast.Tuple)) and len(n_.elts) == 9]
+    names = []
+    for l in lists:
+        if all(str_const(e) for e in l.elts):
+            names.append([str_const(e) for e in l.elts])
+        elif all(isinstance(e, (ast.Tuple, ast.List)) and e.elts and str_const(e.elts[0]) for e in l.elts):
+            names.append([str_const(e.elts[0]) for e in l.elts])   # a list of (hand-off key, result name) pairs
     rep.check([p_ for p_, _ in PRIORITY] in names, rule_o, "validator:same-order",
               "Validator.verify_food_usage_priorities_round2 checks a different priority sequence", loc=loc(VAL, v))
     c2 = index.func(PARAMS, "Parameters.compute_parameters_second_round")
